@@ -18,8 +18,7 @@ SPEC = {
                  'C36_single_sub_satisfiable',
                  'C36_close_never_panics_refuted', 'C36_close_never_panics_partial', 'C36_close_panics_iff_overlap',
                  'C36_overlapping_close_panics', 'C36_sequential_closes_satisfiable',
-                 'C36_pump_stops_only_on_close_refuted', 'C36_pump_stops_only_on_close_partial',
-                 'C36_running_pump_takes', 'C36_lookalike_loses_request', 'C36_nonzero_id_guard_satisfiable',
+                 'C36_pump_stops_only_on_close', 'C36_running_pump_takes', 'C36_lookalike_is_delivered',
                  'C36_closed_queue_no_open_topic_refuted', 'C36_closed_queue_no_open_topic_partial',
                  'C36_wait_after_queue_close_refuted', 'C36_wait_after_queue_close_partial',
                  'C36_known_topic_wait_returns', 'C36_send_racing_queue_close', 'C36_late_topic_wait_blocks',
@@ -38,7 +37,7 @@ SPEC = {
             '2-4 clients, 6-40 calls, generated online from the API-level view. Streams: disciplined (discipline kept, one Sub per '
             'client, no ID-0 message, no overlapping Close, no new topic after Queue.Close: inside every guard, every spec failure is a violation), '
             'multisub (client 0 subscribed to two topics; may meet finding 3), raw (queue.NewMessage(0,topic,0,nil) among the '
-            'requests; finding 5), overlap (subscriber not reading, Close called again while a Close of the same client waits, the '
+            'requests; finding 5 fixed: they are delivered like any message, ID 0 is left out of the at-most-once count), overlap (subscriber not reading, Close called again while a Close of the same client waits, the '
             'panic recovered and the scenario continued; finding 4), witness-two-topics / -one-topic-twice / -two-topics-roundtrip / '
             '-overlapping-close / -lookalike / -late-topic (scripted, deterministic) and witness-race-queue-close (Queue.Close in one '
             'goroutine, its locked loop made long by 60000 unused preset topics; as soon as a goroutine is inside Close.func1 a Send '
@@ -82,8 +81,7 @@ SPEC = {
         'the reply / at-most-once theorems are stated for disciplined traces, which exclude ENewRaw (a request built with '
         'queue.NewMessage(0, topic, 0, nil)); several Subs per client, overlapping Close calls and the two-part Queue.Close are inside them',
         'guards of the _partial theorems (all boolean): single_sub (every topic the client subscribed to is the topic of its last Sub), '
-        'close_in_progress = false (no Close of that client between close(client.done) and isClosed = 1), rdisc (every message sent '
-        'has a non-zero ID), qdisc (once Queue.Close has walked the topics no call names a topic that did not exist then), bdisc (no '
+        'close_in_progress = false (no Close of that client between close(client.done) and isClosed = 1), qdisc (once Queue.Close has walked the topics no call names a topic that did not exist then), bdisc (no '
         'send parks between the walk and isClose = 1; met by every trace with the atomic ECloseQueue only: C36_atomic_queue_close_meets_guard)',
         'callback messages (NewMessageCallback), a Sub racing the Close of the same client, and raw messages with a non-zero ID that '
         'collides with a pooled ID are not modelled',
@@ -92,9 +90,9 @@ SPEC = {
         'level_text': 'reply/at-most-once proved for all interleavings of disciplined traces of the LTS, now with several subscriptions per client, '
                       'overlapping Close calls and Queue.Close in two parts (refuted without the FreeMessage discipline, which is the API contract); '
                       'after-close errors proved for the extended system with the exact condition under which a Wait returns (C36_wait_returns_iff); '
-                      '"a returned Close call closes the client" proved for every client. PARTIAL in four places, each with a refutation reproduced '
-                      'on the Go code (open findings 3-6): a closed subscriber closes only the topic of its last Sub; a Close overlapping a Close of '
-                      'the same client panics; a message with ID 0 / Ty 0 / nil Data stops the subscriber pump and later requests are lost; topics '
+                      '"a returned Close call closes the client" proved for every client. PARTIAL in three places, each with a refutation reproduced '
+                      'on the Go code (open findings 3, 4, 6): a closed subscriber closes only the topic of its last Sub; a Close overlapping a Close of '
+                      'the same client panics; (finding 5, the sentinel look-alike, is fixed in chain33 99c26c1: C36_pump_stops_only_on_close now holds for every trace); topics '
                       'first named while or after Queue.Close runs are created open inside the closed queue (Send accepted, Wait or a parked Send '
                       'blocks for ever), so "every parked send returns once the queue is closed" now needs the guard bdisc. Tie to the Go code by '
                       'scripted event-by-event correspondence; the concurrent runs are a test',
